@@ -1,6 +1,9 @@
 package tubes
 
-import "encoding/binary"
+import (
+	"encoding/binary"
+	"errors"
+)
 
 type frame struct {
 	ackNo      uint32
@@ -116,13 +119,24 @@ func (p *frame) toBytes() []byte {
 	)
 }
 
+// errMalformedFrame is returned for a buffer too short for the frame header or
+// for the data length the header declares.
+var errMalformedFrame = errors.New("malformed frame")
+
 func fromBytes(b []byte) (*frame, error) {
+	if len(b) < 12 {
+		return nil, errMalformedFrame
+	}
 	dataLength := binary.BigEndian.Uint16(b[2:4])
+	end := 12 + int(dataLength)
+	if end > len(b) {
+		return nil, errMalformedFrame
+	}
 	return &frame{
 		tubeID:     b[0],
 		flags:      metaToFlags(b[1]),
 		dataLength: dataLength,
-		data:       append([]byte(nil), b[12:12+dataLength]...),
+		data:       append([]byte(nil), b[12:end]...),
 		ackNo:      binary.BigEndian.Uint32(b[4:8]),
 		frameNo:    binary.BigEndian.Uint32(b[8:12]),
 	}, nil
@@ -136,6 +150,6 @@ func fromInitiateBytes(b []byte) *initiateFrame {
 		dataLength: dataLength,
 		tubeType:   TubeType(b[4]),
 		frameNo:    binary.BigEndian.Uint32(b[6:10]),
-		data:       b[10 : 10+dataLength],
+		data:       b[10 : 10+int(dataLength)],
 	}
 }
